@@ -834,7 +834,7 @@ int main(int argc, char **argv) {
   bsx::Report R;
   R.property = "C10"; R.part = a.kv.count("part") ? a.kv["part"] : "sched"; R.tier = a.tier;
   bool thorough = a.tier == "thorough";
-  R.deadline_s = thorough ? 560 : 50;
+  R.deadline_s = thorough ? 480 : 50;
   vsx::Explorer ex;
   ex.horizon = horizon;
   long long unit = 0, schedules = 0, points = 0, instants = 0, recov = 0, crashpoints = 0;
